@@ -1,7 +1,58 @@
 import Mutagen.Driver.Util
+import Mutagen.Model.LRU
 namespace Mutagen.Driver.C45
+open Mutagen.Driver Mutagen.Model.LRU
 
-/-- Model-side handler for one line of the C45 correspondence stream. -/
-def handle (_line : String) : String := "unimplemented"
+/-!
+Line: `<maxEntries> <op> <op> …` (maxEntries a decimal integer, may be negative) with ops
+  `a:<k>:<v>` Add, `g:<k>` Get, `r:<k>` Remove, `l` Len.
+Output: one token per op — `a`/`r`: the eviction-callback calls made during the
+op (`k=v` joined by `;`, `-` for none); `g`: the value or `miss`; `l`: the
+length — then ` |<entries front to back k=v,…>|<sorted index keys>|<Len>`.
+-/
+
+def showPairs (sep : String) (l : List (Nat × Nat)) : String :=
+  if l.isEmpty then "-" else sep.intercalate (l.map fun (k, v) => s!"{k}={v}")
+
+def parseOp (s : String) : Option Op :=
+  match s.splitOn ":" with
+  | ["a", k, v] => do pure (.add (← k.toNat?) (← v.toNat?))
+  | ["g", k] => do pure (.get (← k.toNat?))
+  | ["r", k] => do pure (.remove (← k.toNat?))
+  | ["l"] => some .len
+  | _ => none
+
+def showRes (delta : List (Nat × Nat)) : Op → Res → String
+  | .add _ _, _ => showPairs ";" delta
+  | .remove _, _ => showPairs ";" delta
+  | _, .hit v => toString v
+  | _, .miss => "miss"
+  | _, .len n => toString n
+  | _, .unit => "?"
+
+def run (c : Cache) : List Op → List String → Cache × List String
+  | [], acc => (c, acc.reverse)
+  | op :: ops, acc =>
+    let (c', r) := c.step op
+    run c' ops (showRes (c'.evicted.drop c.evicted.length) op r :: acc)
+
+def insertSorted (x : Nat) : List Nat → List Nat
+  | [] => [x]
+  | y :: ys => if x ≤ y then x :: y :: ys else y :: insertSorted x ys
+
+def sortNat (l : List Nat) : List Nat := l.foldr insertSorted []
+
+def parseInt (s : String) : Option Int :=
+  if s.startsWith "-" then (s.drop 1).toNat?.map fun n => -(n : Int) else s.toNat?.map fun n => (n : Int)
+
+def handle (line : String) : String :=
+  match fields line with
+  | cap :: ops =>
+    match parseInt cap, ops.mapM parseOp with
+    | some c, some ops =>
+      let (cache, outs) := run (new c) ops []
+      " ".intercalate outs ++ s!" |{showPairs "," cache.abs}|{showNatList (sortNat (cache.index.map (·.1)))}|{cache.len}"
+    | _, _ => "bad-op"
+  | _ => "bad-op"
 
 end Mutagen.Driver.C45
